@@ -26,10 +26,10 @@ CONSTANTS Size,      \* "q" | "t" : bounds of the enumeration
 
 \* ---------- bounds ----------
 Seqs(S, n) == [1..n -> S]
-WX == IF Size = "t" THEN Seqs({1, 2, 3}, 3) \cup { << 1, 1, 1, 1 >>, << 1, 2, 2, 1 >>, << 3, 1, 2, 1 >>, << 2, 1, 1, 3 >>, << 2, 2 >>, << 1, 3 >> }
+WX == IF Size = "t" THEN Seqs({1, 2, 3}, 3) \cup { << 1, 2, 2, 1 >>, << 3, 1, 2, 1 >>, << 2, 2 >> }
       ELSE { << 2, 2, 2 >>, << 1, 2, 1 >>, << 3, 1, 2 >>, << 1, 1, 2 >>, << 1, 2, 2, 1 >> }
 WY == IF Size = "t" THEN { << 1, 2, 1 >>, << 2, 1, 3 >>, << 2, 2 >> } ELSE { << 1, 2, 1 >>, << 2, 2 >> }
-WZ == IF Size = "t" THEN { << 1, 1 >>, << 2, 1 >> } ELSE { << 2, 1 >> }
+WZ == { << 2, 1 >> }
 \* radii in quarter units: 1, 1.25, 1.5, 2, 2.5, 3
 Radii    == IF Size = "t" THEN {4, 5, 6, 8, 10, 12} ELSE {4, 6, 8, 10}
 EllRadii == IF Size = "t" THEN {4, 5, 6, 8, 10} \X {4, 6, 8} \X {4, 8} ELSE {4, 6, 8} \X {4, 8} \X {4, 6}
